@@ -51,8 +51,8 @@ Section Total.
     induction rest as [|[x it] rest IH]; intros a base0 idx Hb Ha; cbn [Rcb.fold_chunk length].
     - rewrite Nat.add_0_r. exact Ha.
     - replace (idx - base0 + S (length rest))%nat with (S idx - base0 + length rest)%nat by lia.
-      apply IH; [lia|]. destruct a as [[[cnt wl] ni] nd]. unfold Rcb.fold_step.
-      destruct (if by_coord then ltb x t else ltb (dist x t) zero).
+      apply IH; [lia|]. destruct a as [[[cnt wl] ni] nd]. unfold Rcb.fold_step. cbv zeta.
+      destruct (if by_coord then ltb x t else ltb (if by_coord then x else dist x t) zero).
       + cbn [idx_ok] in *. destruct ni; [lia|exact I].
       + destruct (ltb (if by_coord then x else dist x t) nd); cbn [idx_ok] in *; [lia|destruct ni; [lia|exact I]].
   Qed.
@@ -199,7 +199,7 @@ Section Total.
   Proof.
     intros fuel sched D k its sum bb p0 HD Hbb Hwf Hgood Hix Hne Hf1 Hf2.
     destruct (rcb_rec_total k fuel sched D its 0%N 0%nat sum bb HD Hbb Hwf Hgood Hf1 Hf2) as [asg Hrec].
-    unfold Rcb.rcb_core. rewrite Hrec. cbn [bind].
+    unfold Rcb.rcb_core. rewrite Hrec. cbn [bind]. rewrite (scatter_fast_eq C).
     assert (Hv : Forall (vitem C valid) its).
     { rewrite Forall_forall in *. intros it Hit. apply (Hwf it Hit). }
     destruct (rcb_rec_spec C ltb leb mid dist addc zero inf within_tol false by_coord probe_max valid
